@@ -1,4 +1,6 @@
 """C08 — latency toxic delays every piece by latency +/- jitter, without throttling."""
+import json
+
 from . import common as C
 from . import links as L
 
@@ -99,6 +101,30 @@ def gen_cases(ctx, rng):
         cases.append({"dir": rng.choice(["upstream", "downstream"]), "chain": chain, "src": srcs[0], "srcs": srcs, "links": nl,
                       "horizon": 3600 * 1000 * L.MS, "seed": 7000 + i})
         stats["shared_by_connections"] += 1
+    # the latency toxic created (or raised from 0) while the connection's last stage is stuck handing data to a receiver that takes longer
+    # than the 5 s after which other parts of the code give up: the request waits for the stage, and from then on every piece of that
+    # connection is delayed like on any other
+    stats["added_under_back_pressure"] = 0
+    for i in range(10 if ctx.tier == "quick" else 200):
+        lat = rng.choice([200, 400, 1500])
+        slow = rng.choice([6500, 9000, 15000]) * L.MS
+        A = 1 * L.MS + slow                      # the first write occupies the receiver until then; the second is handed over at that instant
+        src = [{"at": 1 * L.MS, "n": 100}, {"at": 2 * L.MS, "n": 100}]
+        t = A + 4 * slow
+        for _ in range(4):
+            src.append({"at": t, "n": rng.range(1, 600)})
+            t += 2 * slow
+        src.append({"at": t + 4 * slow, "close": True})
+        R = rng.range(50, 900) * L.MS + rng.range(1, 999)
+        if rng.chance(1, 2):
+            chain = [L.tx("noop", name="n0")] if rng.chance(1, 2) else []
+            ops = [{"at": R, "op": "add", "toxic": L.tx("latency", name="l", latency=lat, jitter=0)}]
+        else:
+            chain = [L.tx("latency", name="l", latency=0, jitter=0)]
+            ops = [{"at": R, "op": "update", "name": "l", "body": json.dumps({"attributes": {"latency": lat}})}]
+        cases.append({"dir": rng.choice(["upstream", "downstream"]), "chain": chain, "src": src, "sink_delay": [slow, 0], "ops": ops,
+                      "horizon": 3600 * 1000 * L.MS, "seed": 8000 + i, "late_latency": {"from": A, "lat": lat}})
+        stats["added_under_back_pressure"] += 1
     return cases, stats
 
 
@@ -110,6 +136,16 @@ def oracle(case, res):
     sent = sum(e.get("n", 0) for e in case["src"])
     if res["total"] != sent:
         return "receiver got %d of %d bytes" % (res["total"], sent)
+    if case.get("late_latency"):
+        ll = case["late_latency"]
+        writes = [e for e in case["src"] if not e.get("close")]
+        ws = res["writes"] or []
+        if len(ws) == len(writes):
+            for k, (e, w) in enumerate(zip(writes, ws)):
+                if e["at"] > ll["from"] and w["t"] - e["at"] < ll["lat"] * L.MS:
+                    return ("the latency toxic (%d ms) was created or raised while the connection's stage was stalled towards its receiver; the request returned, "
+                            "yet piece %d sent at %d ns was forwarded %d ns later, earlier than the latency" % (ll["lat"], k, e["at"], w["t"] - e["at"]))
+        return None
     if case.get("behind_splitter"):
         # byte k of the stream was received by the proxy at the time of the write that carried it
         ws, pos = res["writes"] or [], 0
